@@ -31,7 +31,8 @@ RULE = (
 )
 FES = ["county_classification", "county_fips", "district"]
 LEVELS = {"county_classification": ["rural", "urban", "suburban", "other", "exurb", "zeta"],
-          "county_fips": ["01001", "01003", "02001", "1", "10", "9"], "district": ["01", "02", "03", "AL"]}
+          "county_fips": ["01001", "01003", "02001", "1", "10", "9"], "district": ["01", "02", "03", "AL", "1", "10", "rural"]}
+# some labels occur in more than one effect ("1", "10", "rural"): a level selected for one effect says nothing about another
 
 
 def gen_case(rng):
@@ -80,7 +81,9 @@ def gen_case(rng):
             fixed[fe] = "all" if rng.random() < 0.3 else rng.sample(LEVELS[fe], rng.randint(1, 3))
     if rng.random() < 0.5:
         rows.sort(key=lambda r: (0 if (r["reporting"] == 1 and r["unit_category"] == "expected") else 1 if r["unit_category"] == "expected" else 2))
-    return {"rows": rows, "fes": fes, "features": feats, "fixed": fixed, "sep": sep}
+    # a third of the frames carry repeated row labels (what concatenating the reporting / nonreporting / unexpected frames without a
+    # reset gives): the label of a row is its position within its own role
+    return {"rows": rows, "fes": fes, "features": feats, "fixed": fixed, "sep": sep, "dup_index": rng.random() < 0.34}
 
 
 def impl_run(case):
@@ -90,6 +93,14 @@ def impl_run(case):
     df = pd.DataFrame(case["rows"])
     for fe in case["fes"]:
         df[fe] = df[fe].astype(object).where(df[fe].notna(), np.nan)
+    if case.get("dup_index"):
+        seen = {}
+        labels = []
+        for r in case["rows"]:
+            k = (r["reporting"], r["unit_category"])
+            labels.append(seen.get(k, 0))
+            seen[k] = seen.get(k, 0) + 1
+        df.index = labels
     fz = Featurizer(list(case["features"]), case["fixed"] if isinstance(case["fixed"], list) else dict(case["fixed"]),
                     states_for_separate_model=list(case["sep"]))
     try:
